@@ -39,6 +39,12 @@ func (op regOp) real() ([]byte, bool) {
 // sources the parser rejects (missing, surplus and crossed closers, unterminated tags)
 var c04Malformed = []string{"{% if a == 1 %}x", "x{% endif %}", "{% for i := 0; i < 2; i++ %}y", "{% switch a %}{% case 1 %}z", "{% if a == 1 %}{% for i := 0; i < 2; i++ %}w{% endif %}{% endfor %}", "{% if a == 1 %}v{% endfor %}", "u{% if", "{% for _, v := range a %}{% if v == 1 %}q{% endfor %}"}
 
+// two sources of 4349 bytes with a common head of 4340
+var c04Long = func() []string {
+	head := strings.Repeat("0123456789abcdef-long-source-head;", 200)[:4340]
+	return []string{head + "variant-A", head + "variant-B"}
+}()
+
 // multi-line sources: with keepFmt they render verbatim, without it line breaks and indentation go
 var c04Multi = []string{"source-E\n\tmore", "source-F\n  tail\nend"}
 
@@ -79,6 +85,10 @@ func genHistory(r *RNG, maxLen int) []regOp {
 		if r.Chance(35) && len(ops) > 0 {
 			// bias to replace-and-restore: reuse a source registered earlier
 			src = c04Sources[r.Intn(2)]
+		}
+		if r.Chance(12) {
+			// long sources that differ only behind a long common head (and have the same length)
+			src = c04Long[r.Intn(len(c04Long))]
 		}
 		text, keep := "", r.Bool()
 		if r.Chance(30) {
@@ -179,7 +189,7 @@ func runHistory(ops []regOp) {
 		switch {
 		case o.Panic != "" || o.Hang:
 			op.Obs = "panic:" + o.Panic
-		case o.Err == "template not found":
+		case o.Err == dyntpl.ErrTplNotFound.Error():
 			if len(o.Out) > 0 {
 				op.Obs = "notfound-after-write:" + string(o.Out)
 			} else {
